@@ -310,7 +310,14 @@ func (c *Context) HandleEnvelop(envelop vivid.Envelop) {
 			killingOrKilled = true
 		}
 	}
-	if killingOrKilled && !c.zombie {                                                             // 是否处于僵尸状态
+	if killingOrKilled && currentState == killing && c.restarting != nil {
+		// 正处于重启的终止阶段（等待子 Actor 结束）时到达的优雅 Kill（普通消息）不能进入死信，
+		// 需交由 onKill 将本次重启转为终止，否则该 Actor 会在重启完成后继续存活
+		if _, isKill := envelop.Message().(*vivid.OnKill); isKill {
+			killingOrKilled = false
+		}
+	}
+	if killingOrKilled && !c.zombie { // 是否处于僵尸状态
 		if c.parent == nil && currentState == killed {
 			// 根 Actor 已终止（系统已停止）：无处投递死信，直接丢弃，否则死信会被无限次重新包装并投回自身
 			return
@@ -547,6 +554,12 @@ func (c *Context) onRestart(message *RestartMessage, behavior vivid.Behavior) {
 
 func (c *Context) onKill(message *vivid.OnKill, behavior vivid.Behavior) {
 	if !c.zombie && !atomic.CompareAndSwapInt32(&c.state, running, killing) {
+		// 重启的终止阶段（state 为 killing 且 restarting 不为空，正在等待子 Actor 结束）收到 Kill：
+		// 终止流程已经由重启发起，只需将本次重启转为终止；否则 Kill 会被忽略，Actor 在重启完成后继续存活，
+		// 而正在等待其死亡的父 Actor（或 System.Stop）将永远无法完成终止
+		if atomic.LoadInt32(&c.state) == killing && c.restarting != nil {
+			c.restarting = nil
+		}
 		return
 	}
 	c.doKill(message, behavior)
